@@ -609,6 +609,64 @@ func (w *w6World) lifetime(life int, startOff int64, startMeta []byte, faulty bo
 		verifsim.Wait()
 		return w.afterCrash(snap, "quiescent")
 	}
+	// master handover (process replacement): the successor starts reading while the old master is
+	// still appending, reports "not ready" at EOF, waits for the signal that the predecessor is gone,
+	// reads the rest and only then becomes master
+	var succ BinlogReadWrite
+	var succEng *w6Engine
+	var succSignal chan struct{}
+	var succDone bool
+	var succErr error
+	if w.faultFired == "" && !w.crashed && c.Intn(3, "handover") == 1 {
+		w.crashAtOp, w.failAtOp = -1, -1
+		r.Probe("handover_started")
+		succEng = &w6Engine{r: r, w: w, name: fmt.Sprintf("eng%d-successor", life), oneByOne: c.Intn(2, "onebyone") == 1}
+		var err error
+		succ, succSignal, err = NewFsBinlogMasterChange(&binlog.EmptyLogger{}, w.opt)
+		if err != nil {
+			panic(err)
+		}
+		go func() {
+			succErr = succ.Run(0, nil, nil, succEng)
+			succDone = true
+		}()
+		verifsim.Wait()
+		// the old master keeps working for a while
+		for k := c.Intn(4, "handover_appends"); k > 0 && !runDone; k-- {
+			n := c.Intn(300, "len")
+			id := w.nextID
+			w.nextID++
+			body := w6Body(id, n)
+			off := w.nextOff
+			reqCh <- appendReq{body, c.Intn(2, "asap") == 1}
+			verifsim.Wait()
+			var res appendRes
+			got := false
+			for tries := 0; tries < 50 && !got; tries++ {
+				select {
+				case res = <-resCh:
+					got = true
+				default:
+					time.Sleep(time.Millisecond)
+					verifsim.Wait()
+				}
+			}
+			if !got || res.err != nil {
+				r.Fail("C18", "append_error", "handover", "append by the old master during handover failed: got=%v err=%v", got, res.err)
+				break
+			}
+			w.model = append(w.model, w6Event{id: id, off: off, end: off + int64(AddPadding(len(body))), next: res.next, length: n})
+			w.nextOff = res.next
+			r.Event("client", "append (during handover) id=%d len=%d at=%d next=%d", id, n, off, res.next)
+			if c.Intn(2, "handover_sleep") == 1 {
+				time.Sleep(600 * time.Millisecond)
+				verifsim.Wait()
+			}
+		}
+		if succEng.masterReady() {
+			r.Fail("C18", "handover_early_master", "handover", "the successor became a ready master while its predecessor was still running")
+		}
+	}
 	r.Sched("shutdown", "client")
 	bl.RequestShutdown()
 	verifsim.Wait()
@@ -636,6 +694,34 @@ func (w *w6World) lifetime(life int, startOff int64, startMeta []byte, faulty bo
 		return false
 	}
 	r.Event(eng.name, "clean shutdown err=%v commits=%d", runErr, len(eng.commits))
+	if succ != nil && !r.Failed() {
+		// the predecessor is gone: tell the successor, it must now read everything and take over
+		succSignal <- struct{}{}
+		verifsim.Wait()
+		for i := 0; i < 30 && !succEng.masterReady() && !succDone; i++ {
+			time.Sleep(100 * time.Millisecond)
+			verifsim.Wait()
+		}
+		r.Event(succEng.name, "after handover: applied=%d masterReady=%v done=%v err=%v", len(succEng.applied), succEng.masterReady(), succDone, errShort(succErr))
+		if succDone || !succEng.masterReady() {
+			r.Fail("C18", "handover_failed", "handover", "the successor did not become master after the predecessor's clean exit: done=%v err=%v", succDone, succErr)
+		} else {
+			w.checkApplied(succEng, 0, len(w.model), "handover", true)
+			if !r.Failed() && succEng.offset != w.nextOff {
+				r.Fail("C18", "restart_offset", "handover", "successor's offset %d != predecessor's final offset %d", succEng.offset, w.nextOff)
+			}
+		}
+		succEng.dead = true
+		succ.RequestShutdown()
+		for i := 0; i < 100 && !succDone; i++ {
+			time.Sleep(10 * time.Millisecond)
+			verifsim.Wait()
+		}
+		if r.Failed() {
+			return false
+		}
+		r.Probe("handover_completed")
+	}
 	return true
 }
 
